@@ -414,7 +414,7 @@ def main_c11(tier):
             # types of packages no user file imports (reached through a library's signatures), same-named packages, 1-2 files per
             # invocation: the import names the generator invents must not depend on leftovers or on scheduling
             for k in range(4 if quick else 8):
-                acases.append(advgen.transitive_case(rng, 'j%02d' % k, shadow_std=(k % 2 == 1), nfiles=1 + (k // 2) % 2))
+                acases.append(advgen.transitive_case(rng, 'j%02d' % k, shadow_std=(k % 4 == 1), nfiles=1 + (k // 2) % 2, other_used=(k % 2 == 0)))
             for k in range(2 if quick else 6):
                 acases.append(advgen.gen_case(rng, 'l%02d' % k, adversarial=True, ninj=1, nfiles=3, force_async=True))
             aroot = w.path('adv-c11')
